@@ -654,12 +654,15 @@ pub(super) fn adds(
         )
         .unwrap();
 
-        // store result
-        operand_store(block, &instruction.operands()[0], result)?;
+        // set the flags first: their expressions read the source operands, which the
+        // destination may alias (`adds x0, x0, #1`)
         block.assign(scalar!("n"), n);
         block.assign(scalar!("z"), z);
         block.assign(scalar!("c"), c);
         block.assign(scalar!("v"), v);
+
+        // store result
+        operand_store(block, &instruction.operands()[0], result)?;
 
         block.index()
     };
@@ -1425,12 +1428,15 @@ pub(super) fn subs(
         )
         .unwrap();
 
-        // store result
-        operand_store(block, &instruction.operands()[0], result)?;
+        // set the flags first: their expressions read the source operands, which the
+        // destination may alias (`adds x0, x0, #1`)
         block.assign(scalar!("n"), n);
         block.assign(scalar!("z"), z);
         block.assign(scalar!("c"), c);
         block.assign(scalar!("v"), v);
+
+        // store result
+        operand_store(block, &instruction.operands()[0], result)?;
 
         block.index()
     };
